@@ -6,7 +6,6 @@ import (
 	"regexp"
 	"strconv"
 	"strings"
-	"unicode/utf8"
 
 	"verif.local/simrt"
 )
@@ -79,15 +78,15 @@ func isAssocContext(c string) bool { return c == "Catalog" || c == "Map" }
 
 // node is a canonical value tree: what a sentence denotes.
 type node struct {
-	Kind string  `json:"k"` // nil bool int uint float complex rune string assoc | Array Catalog List Map Queue Set Stack
-	B    bool    `json:"b,omitempty"`
-	I    int64   `json:"i,omitempty"`
-	U    uint64  `json:"u,omitempty"`
-	F    float64 `json:"f,omitempty"`
+	Kind string     `json:"k"` // nil bool int uint float complex rune string assoc | Array Catalog List Map Queue Set Stack
+	B    bool       `json:"b,omitempty"`
+	I    int64      `json:"i,omitempty"`
+	U    uint64     `json:"u,omitempty"`
+	F    float64    `json:"f,omitempty"`
 	C    [2]float64 `json:"c,omitempty"`
-	R    rune    `json:"r,omitempty"`
-	S    string  `json:"s,omitempty"`
-	Kids []*node `json:"kids,omitempty"`
+	R    rune       `json:"r,omitempty"`
+	S    string     `json:"s,omitempty"`
+	Kids []*node    `json:"kids,omitempty"`
 }
 
 func (n *node) String() string {
@@ -210,11 +209,12 @@ func mustLit(alt, text string) literal {
 	case "nil":
 		n.Kind = "nil"
 	case "rune":
-		s, err := strconv.Unquote(text)
-		if err != nil {
-			panic(fmt.Sprint(text, err))
+		// standard Go semantics of a rune literal: the value of its single
+		// (possibly escaped) character; '\xe9' is 0xE9, not a UTF-8 decoding
+		r, _, tail, err := strconv.UnquoteChar(text[1:len(text)-1], '\'')
+		if err != nil || tail != "" {
+			panic(fmt.Sprint(text, err, tail))
 		}
-		r, _ := utf8.DecodeRuneInString(s)
 		n.Kind, n.R = "rune", r
 	case "string":
 		s, err := strconv.Unquote(text)
@@ -237,7 +237,7 @@ var litPool = func() map[string][]literal {
 			"1.7976931348623157E+308", "4.9E-324", "6.02E+23", "1.0e+1", "9.99E+99", "1.25E-7"},
 		"complex": {"(1.0+2.0i)", "(-1.5-0.5i)", "(0.0+0.0i)", "(1.0E+2-3.0e-1i)", "(+2.0+1.0i)", "(0.5-1.0E+10i)"},
 		"nil":     {"nil"},
-		"rune": {`'a'`, `'Z'`, `'0'`, `' '`, `'"'`, `'\''`, `'\\'`, `'\n'`, `'\t'`, `'\a'`, `'\x41'`, `'é'`, `'\U0001f600'`, `'é'`, `'😀'`, `'\v'`, `'['`, `','`},
+		"rune":    {`'a'`, `'Z'`, `'0'`, `' '`, `'"'`, `'\''`, `'\\'`, `'\n'`, `'\t'`, `'\a'`, `'\x41'`, `'\x7f'`, `'\x80'`, `'\xe9'`, `'\xff'`, `'\u00e9'`, `'\U0001f600'`, `'é'`, `'😀'`, `'\v'`, `'['`, `','`},
 		"string": {`""`, `"a"`, `"hello world"`, `"with \"quotes\""`, `"tab\there"`, `"\x41é\U0001f600"`, `"ünïcödé"`, `"😀"`, `"back\\slash"`, `"[](List)"`,
 			`"1, 2"`, `"a: b"`, `"nil"`, `"true"`, `"'"`, `"\a\b\f\n\r\t\v"`, `"The quick brown fox jumps over the lazy dog and keeps running for a rather long while."`},
 	}
@@ -275,11 +275,11 @@ var mustReject = []struct{ Alt, Text string }{
 // ---- sentence generation ---------------------------------------------------------------------
 
 type genOpts struct {
-	maxDepth  int
-	maxItems  int
-	style     int // 0 strict (no optional blanks), 1 formatter style
-	inSet     bool
-	queueCap  int
+	maxDepth int
+	maxItems int
+	style    int // 0 strict (no optional blanks), 1 formatter style
+	inSet    bool
+	queueCap int
 }
 
 type sentence struct {
